@@ -478,9 +478,11 @@ def sweep(job):
                 else:
                     acc.add('spelled_arguments_agree')
         # Tyrving: hand-timed never scores more than the same figure timed electronically
-        if 'text1-hand' in cur and 'text2' in cur and isinstance(cur['text1-hand'], int) and isinstance(cur['text2'], int):
-            if cur['text1-hand'] > cur['text2']:
-                acc.bad('C05:ty:hand-timed-scores-more', dict(jid, mark=txt1(cs)), 'hand %r -> %d, electronic %r -> %d' % (txt1(cs), cur['text1-hand'], txt2(cs), cur['text2']))
+        for hname in ('text1-hand', 'm:ss.x-hand', 'm.ss.x-hand'):
+            if hname in cur and 'text2' in cur and isinstance(cur[hname], int) and isinstance(cur['text2'], int):
+                if cur[hname] > cur['text2']:
+                    acc.bad('C05:ty:hand-timed-scores-more' + ('' if hname == 'text1-hand' else ':' + hname), dict(jid, mark=txt1(cs), form=hname),
+                            'hand-timed (%s) %r -> %d, electronic %r -> %d' % (hname, txt1(cs), cur[hname], txt2(cs), cur['text2']))
         # C05 monotonicity against the previous mark, per form present in both
         if prev is not None:
             pcs, pres = prev
